@@ -102,6 +102,10 @@ type r2parseVal struct {
 	sel  string
 	// r2parseSlice
 	elems []*r2parseVal
+	// hole: an element slot of a slice created by make([]T, n) with n > 0 (or unknown n)
+	// that no store has filled on this path; holeN: the length was not a constant
+	hole  bool
+	holeN bool
 	// carried: the value was read (directly or through a computation) from local
 	// variables that are assigned inside an enclosing loop body but whose current
 	// binding on this path predates the running iteration (loop-carried values)
@@ -139,6 +143,7 @@ type r2parseState struct {
 	bindSeq   map[types.Object]int             // local variable -> capture counter at its last assignment on this path
 	ctrl      []r2parseCtrl                    // regions whose execution was decided by a loop-carried value
 	errAlias  map[types.Object]r2parseErrAlias // boolean local -> the error test it holds
+	lastCons  int                              // capture counter after the last call that can consume a token
 }
 
 type r2parseErrAlias struct {
@@ -166,7 +171,7 @@ type r2parsePend struct {
 }
 
 func r2parseClone(s *r2parseState) *r2parseState {
-	n := &r2parseState{D: s.D, U: s.U, seq: s.seq, last: s.last, disp: s.disp, retSet: s.retSet,
+	n := &r2parseState{D: s.D, U: s.U, seq: s.seq, last: s.last, disp: s.disp, retSet: s.retSet, lastCons: s.lastCons,
 		env: make(map[types.Object]*r2parseVal, len(s.env)), errNil: make(map[types.Object]int8, len(s.errNil)),
 		calls: make(map[types.Object]*r2parseCallRec, len(s.calls)), loops: make(map[token.Pos]*r2parseCap, len(s.loops))}
 	for k, v := range s.env {
@@ -269,7 +274,14 @@ func r2parseEngineOf(c *Ctx) *r2parseEngine {
 			e.fds = append(e.fds, d)
 		}
 	}
-	sort.Slice(e.fds, func(i, j int) bool { return e.fds[i].Pos() < e.fds[j].Pos() })
+	// file order of token.Pos depends on the load order: sort by file name, then offset
+	sort.Slice(e.fds, func(i, j int) bool {
+		pi, pj := c.Fset.Position(e.fds[i].Pos()), c.Fset.Position(e.fds[j].Pos())
+		if pi.Filename != pj.Filename {
+			return pi.Filename < pj.Filename
+		}
+		return pi.Offset < pj.Offset
+	})
 	r2parseEngineCache[c] = e
 	return e
 }
@@ -892,7 +904,18 @@ func (run *r2parseRun) evalCall(st *r2parseState, x *ast.CallExpr, nested bool) 
 				}
 				return out
 			case "make", "new":
-				return &r2parseVal{k: r2parseSlice, typ: info.Types[x].Type, desc: b.Name() + "(…)"}
+				out := &r2parseVal{k: r2parseSlice, typ: info.Types[x].Type, lit: x, desc: b.Name() + "(…)"}
+				if _, isSlice := out.typ.Underlying().(*types.Slice); isSlice && b.Name() == "make" && len(args) >= 2 {
+					if args[1].k == r2parseConst && args[1].cst.Kind() == constant.Int {
+						n, _ := constant.Int64Val(args[1].cst)
+						for i := int64(0); i < n && i < 64; i++ {
+							out.elems = append(out.elems, &r2parseVal{k: r2parseZero, hole: true, lit: x, desc: fmt.Sprintf("slot %d of %s, never stored", i, exprStr(x))})
+						}
+					} else {
+						out.elems = append(out.elems, &r2parseVal{k: r2parseZero, hole: true, holeN: true, lit: x, desc: "slots of " + exprStr(x) + " (length not constant)"})
+					}
+				}
+				return out
 			}
 			return r2parseUnkFrom(b.Name()+"(…)", args...)
 		}
@@ -1026,6 +1049,9 @@ func (run *r2parseRun) applyCall(st *r2parseState, call *ast.CallExpr, fn *types
 	st.U = spSat(st.U, hi)
 	st.note("%s()", fn.Name())
 	after := run.capNow(st, -1)
+	if hi > 0 {
+		st.lastCons = after.seq
+	}
 	st.last = rec
 	sig := fn.Type().(*types.Signature)
 	v := &r2parseVal{k: r2parseCall, fn: fn, call: call, args: args, at: before, desc: "result of " + fn.Name() + "()"}
@@ -1113,6 +1139,34 @@ func r2parseWithField(old *r2parseVal, path []string, v *r2parseVal) *r2parseVal
 	}
 	n.fields[path[0]] = r2parseWithField(sub, path[1:], v)
 	return &n
+}
+
+// storeIndex: xs[i] = v for a slice held in a local (copy-on-write).
+func (run *r2parseRun) storeIndex(st *r2parseState, ix *ast.IndexExpr, v *r2parseVal) {
+	obj := run.objOf(ix.X)
+	if obj == nil {
+		return
+	}
+	old := st.env[obj]
+	if old == nil || old.k != r2parseSlice {
+		return
+	}
+	n := *old
+	n.elems = append([]*r2parseVal(nil), old.elems...)
+	if tv, ok := run.e.info.Types[ix.Index]; ok && tv.Value != nil && tv.Value.Kind() == constant.Int {
+		if i, exact := constant.Int64Val(tv.Value); exact && i >= 0 && int(i) < len(n.elems) && !(len(n.elems) == 1 && n.elems[0].holeN) {
+			n.elems[i] = v
+			st.env[obj] = &n
+			return
+		}
+	}
+	// a store at an index the engine cannot resolve: any slot may have been filled
+	for i, el := range n.elems {
+		if el.hole {
+			n.elems[i] = r2parseUnkFrom("slot possibly stored by "+exprStr(ix), v)
+		}
+	}
+	st.env[obj] = &n
 }
 
 // selectorPath decomposes x.a.b into (obj of x, [a b]).
@@ -1203,7 +1257,27 @@ func (run *r2parseRun) stmt(st *r2parseState, s ast.Stmt) {
 					if run.obs.bind != nil {
 						run.obs.bind(st, x, l, v)
 					}
+					// failure = err: the copy knows what the source knows
+					var srcNil int8
+					var srcCall *r2parseCallRec
+					lobj, robj := run.objOf(l), run.objOf(x.Rhs[i])
+					copyErr := lobj != nil && robj != nil && lobj != robj && e.sp.isErrPtr(lobj.Type()) && e.sp.isErrPtr(robj.Type())
+					if copyErr {
+						srcNil, srcCall = st.errNil[robj], st.calls[robj]
+					}
 					run.bindIdent(st, l, v)
+					if copyErr {
+						if srcNil != 0 {
+							st.errNil[lobj] = srcNil
+						}
+						if srcCall != nil {
+							st.calls[lobj] = srcCall
+						}
+					}
+					continue
+				}
+				if ix, ok := ast.Unparen(l).(*ast.IndexExpr); ok {
+					run.storeIndex(st, ix, v)
 					continue
 				}
 				if root, path := run.selectorPath(l); root != nil {
@@ -1377,6 +1451,15 @@ func (run *r2parseRun) exit(st *r2parseState, o outcome) {
 		return
 	}
 	success := true
+	if o.ret != nil && e.sp.returnsErr(run.fn) && len(o.ret.Results) == 0 && run.fd.Type.Results != nil {
+		// bare return: the named error result decides
+		fl := run.fd.Type.Results.List
+		if last := fl[len(fl)-1]; len(last.Names) > 0 {
+			if obj := e.info.Defs[last.Names[len(last.Names)-1]]; obj != nil && st.errNil[obj] == 2 {
+				success = false
+			}
+		}
+	}
 	if o.ret != nil && e.sp.returnsErr(run.fn) && len(o.ret.Results) > 0 {
 		last := o.ret.Results[len(o.ret.Results)-1]
 		if len(o.ret.Results) == 1 {
